@@ -177,15 +177,15 @@ def runEff (c : Cfg) (t : Term) : List Act :=
      | .streamStderr => [.ret true, .user] ++ dropVec c [] noneWaited c.n
      | .streamStdin => [.ret true, .user, .close ⟨1, .w⟩] ++ dropVec c [⟨1, .w⟩] noneWaited c.n
      | .capture =>
+       -- `Communicator::read` closes stdin once the input is written; whatever the Communicator still holds (its
+       -- read ends, and the stdin write end if the exchange failed before the input was through) is released by
+       -- `drop(comm)` right after the exchange -- before anything waits for a command
        if c.ioFails then
-         -- `comm.read()?` returns early: the Popen(s) are dropped -- and waited for -- before the Communicator, which
-         -- still holds what it had not closed: its read ends and, the input not being finished, the stdin write end
-         [.io] ++ dropVec c (commEnds c t) noneWaited c.n ++ (commEnds c t).map Act.close ++ [.ret false]
+         -- `result?` returns early: the Popen(s) are dropped, and waited for, holding nothing
+         [.io] ++ (commEnds c t).map Act.close ++ dropVec c (commEnds c t) noneWaited c.n ++ [.ret false]
        else
-       -- `Communicator::read` closes stdin once the input is written; the read ends stay open (at
-       -- end-of-file) until the Communicator is dropped, which is after the Vec<Popen>
-       [.io] ++ (commWriteEnds c).map Act.close ++ [.waitRet last] ++
-         dropVec c (commEnds c t) (fun j => j = last) c.n ++ (commReadEnds c t).map Act.close ++ [.ret true]
+       [.io] ++ (commEnds c t).map Act.close ++ [.waitRet last] ++
+         dropVec c (commEnds c t) (fun j => j = last) c.n ++ [.ret true]
      | .communicate =>
        dropVec c (commEnds c t) noneWaited c.n ++ [.ret true, .user] ++ (commEnds c t).map Act.close)
 
